@@ -36,8 +36,8 @@ ENG = {
  "symx": ("hv/symx", "path-exhaustive native execution of the real rule functions on opaque tokens (callees cut at their contracts)"),
  "pysem": ("hv/pysem.py", "trace semantics of the emitted Python AST + decision enumeration (EUF + Boolean guards); with hv/hysem.py as reference semantics"),
  "pyvc": ("hv/pyvc", "static VC generator: source AST of the real function -> SMT (z3, then cvc5) against sidecar contracts"),
- "ex": ("hv/ex.py", "bounded stand-in: complete evaluation of a contract over a finite domain"),
- "rtc": ("hv/rtc.py", "bounded stand-in: run-time contracts on the real functions driven by enumeration / hypothesis"),
+ "ex": ("hv/props (per-property enumeration drivers)", "bounded stand-in: complete evaluation of a contract over a finite domain"),
+ "rtc": ("hv/props (per-property run-time contract drivers), hv/concrete.py", "bounded stand-in: run-time contracts on the real functions driven by enumeration / hypothesis"),
 }
 man = {
  "version": 1,
